@@ -48,7 +48,7 @@ def main():
 
     broken = []          # proof obligations / correspondences that no longer check
     # 1. regenerate
-    for name, rc, out in common.regen():
+    for name, rc, out in common.regen(prop):
         broken.append({'kind': 'translator', 'what': 'coq/gen/%s' % name, 'detail': out})
     # 2. build
     targets = getattr(mod, 'COQ_TARGETS', ['props/%s.vo' % prop])
